@@ -369,6 +369,27 @@ def check_band_solution(dens, nmax, active=False):
     return None
 
 
+def check_todiag(rng, n, m):
+    """a block of any shape (wide, square, tall) written at any offset of a banded matrix: entry (i, j) of the block is found at
+    ab[u + oi + i - oj - j, oj + j], nothing else is written"""
+    from smrt.rtsolver import dort as D
+    oi, oj = int(rng.integers(0, 6)), int(rng.integers(0, 6))
+    u = max(n, m) + abs(oi - oj) + int(rng.integers(0, 3))
+    N = max(oi + n, oj + m) + int(rng.integers(0, 3))
+    ab = np.zeros((2 * u + 1, N))
+    blk = rng.uniform(1, 2, (n, m))
+    D.todiag(ab, oi, oj, blk)
+    want = np.zeros_like(ab)
+    for i in range(n):
+        for j in range(m):
+            want[u + oi + i - oj - j, oj + j] = blk[i, j]
+    if not np.array_equal(ab, want):
+        bad = np.argwhere(ab != want)
+        return ("todiag", f"a {n} x {m} block at offset ({oi}, {oj}) of a banded matrix with u = {u}: {len(bad)} entries of the storage are wrong "
+                f"(first at {bad[0].tolist()})", "every entry at ab[u + oi + i - oj - j, oj + j]")
+    return None
+
+
 def band_scenes(rng, n):
     out = []
     for k in range(n):
@@ -530,6 +551,12 @@ def oracle(ctx, hints, effort):
             findings.append(Finding("fourier", "generic_ft_even_matrix does not return the coefficients of a band-limited matrix",
                                     {"op": "fourier", "npol": npol, "nsamples": N, "m_max": m_max, "A": A.tolist(), "deg": deg},
                                     float(np.abs(got - req).max()), "max |coefficient error| <= 1e-11"))
+    for n_ in range(1, 8 if effort == "routine" else 13):
+        for m_ in range(1, 8 if effort == "routine" else 13):
+            evals += 1
+            r = check_todiag(rng, n_, m_)
+            if r is not None:
+                findings.append(Finding(r[0], r[1], {"op": "todiag", "n": n_, "m": m_}, r[1], r[2]))
     for dens, nmax, act in [([900.0, 60.0], 16, False)] + band_scenes(rng, 4 if effort == "routine" else 30):
         evals += 1
         r = check_band_solution(dens, nmax, act)
@@ -545,6 +572,12 @@ def oracle(ctx, hints, effort):
 
 
 def replay(inp, rp=None):
+    if inp.get("op") == "todiag":
+        for k in range(20):
+            r = check_todiag(np.random.default_rng(k), inp["n"], inp["m"])
+            if r:
+                return Finding(r[0], r[1], inp, r[1], r[2])
+        return None
     if inp.get("op") == "band":
         r = check_band_solution(inp["density"], inp["nmax"], inp["active"])
         return Finding(r[0], r[0], inp, r[1], r[2]) if r else None
